@@ -235,6 +235,15 @@ def check(ix, rep):
         if hf is not None:
             SS.check_forward(ix, _Relabel(rep, None, rule='R-FOOTPRINT'), dm.cls, hf, nn)
     rep.floor('dense-time sliding-window kernels with a confined last-sample influence', nk, 4)
+    # 4. the reach is counted in what the formula says: the bounds a handler receives are the written bounds in the written units (a bound
+    # without a unit takes the other bound's unit, else the default), counted in the configured sampling period -- the horizon h of the
+    # property is computed from the same quantities.  A transformer that resolves a unit differently, or a period that does not reach the
+    # offline interpreter, makes a window longer than the h the settled region is defined by.
+    from sa.rules import units as _units
+    _units.check_transformer(ix, rep, 'rtamt.semantics.discrete_time_interpreter', 'DiscreteTimeInterpreter', 'discrete')
+    _units.check_transformer(ix, rep, 'rtamt.semantics.dense_time_interpreter', 'DenseTimeInterpreter', 'dense')
+    nr = _units.check_forwarding_reach(ix, rep)
+    rep.floor('interpreters a sampling setting has to reach', nr, 2)
     explanation = __doc__.split('\n\n', 1)[1].strip().replace('\n', ' ')
     assumptions = ['hand lemma: composition of footprints along the nesting of a formula (sum of the reaches of nested future operators = the horizon of the property)',
                    'dense time: decided as "the hold-to-infinity of the last sample cannot reach the settled region" (merge kernel contract, forward scans, influence intervals of the sliding-window kernels); the stack invariant of the kernels is a hand lemma (C04)',
